@@ -20,10 +20,14 @@
       separation hypothesis of DESIGN.md (distinct mesh vertices more than 1e-5 apart) on the real instance;
     - the geometric clauses (same region, same outline, orientation) need Theory/Winding.v.
     These clauses are checked after every step of every generated history by the exact-rational oracle.
-    SEE ALSO Properties/C08_region.v: atomicity of the three steps; (v) and the liveness half of (i) ([LNK]) for
-    split_edge / flip_diagonal / restore_delaunay on structurally sound meshes; the multiset of live triangles of each
-    step; and the geometric clauses over the reals (area, coverage, orientation) under the exact-sharing hypothesis
-    [flip_shared] -- the geometric half of (i), which remains a hypothesis there.
+    SEE ALSO Properties/C08_region.v (atomicity of the three steps; (v) and the liveness half of (i) for split_edge /
+    flip_diagonal / restore_delaunay on structurally sound meshes; the multiset of live triangles of each step; the geometric
+    clauses over the reals step by step) and Properties/C08_links.v: clause (i) in its GEOMETRIC form [LNKG] (each link names a
+    live triangle that holds the edge exactly, reversed, and links back) IS preserved by split_triangle / split_edge /
+    flip_diagonal / restore_delaunay / add_point returning Ok, for every number instance, under the separation hypothesis [SEP]
+    (no two distinct vertices within the 1e-5 tolerance) -- this is the instance-generic form of the missing item above; with it,
+    over the reals, area, coverage and orientation are kept along histories without further hypothesis on the links.
+    STILL OPEN: LNKG of from_polygon's result (hypothesis on the starting mesh); refine; nothing geometric on the float instance.
     Was FALSE for the pinned tree (repaired by fix 361bbb9): a step that returned Err could already have
     invalidated a slot ([C08_split_edge_half_update_refuted], about Model/PinnedMesh.v); [refine] swallowed such an Err
     from [add_point].  The live steps test every child with Triangle3D::new before the first mutation. *)
